@@ -55,45 +55,6 @@ type c12 struct{}
 
 func init() { register("C12", c12{}) }
 
-// ---------- Go value -> Gallina json ----------
-
-func c12Num(f float64) string { return strconv.FormatFloat(f, 'f', -1, 64) }
-
-func c12Coq(v any) string {
-	switch t := v.(type) {
-	case nil:
-		return "JNull"
-	case bool:
-		return coqlit.App("JBool", coqlit.Bool(t))
-	case float64:
-		return coqlit.App("JNum", coqlit.Bytes(c12Num(t)))
-	case int:
-		return coqlit.App("JNum", coqlit.Bytes(strconv.Itoa(t)))
-	case string:
-		return coqlit.App("JStr", coqlit.Bytes(t))
-	case []any:
-		e := make([]string, len(t))
-		for i := range t {
-			e[i] = c12Coq(t[i])
-		}
-		return coqlit.App("JArr", coqlit.List(e))
-	case map[string]any:
-		keys := make([]string, 0, len(t))
-		for k := range t {
-			keys = append(keys, k)
-		}
-		sort.Strings(keys)
-		e := make([]string, len(keys))
-		for i, k := range keys {
-			e[i] = "(" + coqlit.Bytes(k) + ", " + c12Coq(t[k]) + ")"
-		}
-		return coqlit.App("JObj", coqlit.List(e))
-	default:
-		// a Go type outside the JSON shapes: can never equal a model value
-		return coqlit.App("JStr", coqlit.Bytes(fmt.Sprintf("\x00%T", v)))
-	}
-}
-
 func c12Path(p []string) string { return coqlit.BytesList(p) }
 
 func c12Conv(v any, dt string) string {
@@ -542,7 +503,7 @@ func (c12) Gen(seed int64, tier string, emit func(any)) {
 	// small element alphabet x one new value of every type
 	docs := []string{`{"a":{"b":1},"c":[true,"s",null]}`, `[{"a":"s"},[1,2],null]`, `{"a":null,"b":{"a":{}}}`}
 	elems := []string{"a", "b", "c", "0", "1", "2", "01", "x"}
-	news := []any{"hello", "7", 2.0, true, nil, c12J(`{"n":[1]}`)}
+	news := []any{"hello", "7", true, c12J(`{"n":[1]}`)}
 	for _, d := range docs {
 		var paths [][]string
 		paths = append(paths, []string{})
@@ -550,7 +511,7 @@ func (c12) Gen(seed int64, tier string, emit func(any)) {
 			paths = append(paths, []string{e1})
 			for _, e2 := range elems {
 				paths = append(paths, []string{e1, e2})
-				for _, e3 := range []string{"a", "0", "x"} {
+				for _, e3 := range []string{"a", "0"} {
 					paths = append(paths, []string{e1, e2, e3})
 				}
 			}
@@ -563,9 +524,9 @@ func (c12) Gen(seed int64, tier string, emit func(any)) {
 	}
 
 	r := rand.New(rand.NewSource(seed))
-	nAlter, nHist := 1500, 250
+	nAlter, nHist := 1000, 200
 	if tier == "thorough" {
-		nAlter, nHist = 30000, 4000
+		nAlter, nHist = 20000, 3000
 	}
 	for i := 0; i < nAlter; i++ {
 		d := c12Doc(r, 1+r.Intn(4))
